@@ -61,7 +61,12 @@ def Instr.reads : Instr → List Nat
   | .list xs | .arr xs => xs
   | .gleave | .setBl _ | .setRes _ | .setIgn _ => []
 
-def Instr.isMk : Instr → Bool | .mk _ _ => true | _ => false
+/-- `PrivVal(x)`, `PubVal(x)`, … : the argument only becomes a witness value.  `ConstVal(x)` is
+NOT one of them: its argument is a coefficient of the circuit. -/
+def Instr.isMk : Instr → Bool
+  | .mk .const _ => false
+  | .mk _ _ => true
+  | _ => false
 
 /-- instruction pairs of "the same program": identical, or two input literals of the same kind -/
 def InstrRel (i j : Instr) : Prop :=
